@@ -28,8 +28,16 @@ def _cfg(path, consts, invariants=("WellFormed", "EmitDone")):
 def generate(c, profiles, num, seed, bfs=True, module="DocGen", bfs_budget=2, invariants=("WellFormed", "EmitDone")):
     """-> list of distinct {"m":..., "exp":...}; adds the TLC runs to the evidence of check c"""
     seen, out = set(), []
+    env = {"LR_TABLES": os.path.join(vf.lib_dir("plain"), "gen", "lr_tables.json")} if module == "Mirror" else None       # Mirror.tla instantiates LR.tla
 
     def take(r):
+        if r.violated == "WellFormed":
+            raise vf.MachineryError("the model generator violates its own sanity invariant WellFormed")
+        if r.violated:
+            # a design-level invariant (Mirror!MirrorDesign, XmlWriter!WriterMirrors ...) fails on some model: the specifications disagree with
+            # each other or with the tables extracted from the working tree; the comparison with the real document decides the property
+            print("DRIFT property=%s %s: invariant %s is violated on a generated model (see the TLC run in the evidence)" % (c.prop, module, r.violated))
+            c.cov.setdefault("spec_invariants_violated", []).append(r.violated)
         for e in r.emitted:
             k = json.dumps(e["m"], sort_keys=True)
             if k not in seen:
@@ -38,14 +46,14 @@ def generate(c, profiles, num, seed, bfs=True, module="DocGen", bfs_budget=2, in
     if bfs:
         cfg = os.path.join(c.run_dir, "DocGen_bfs.cfg")
         _cfg(cfg, dict(BFS, Budget=bfs_budget), invariants)
-        r = vf.run_tlc(module, cfg, c.run_dir, timeout=1500, xmx="12g", keep_out=False)
+        r = vf.run_tlc(module, cfg, c.run_dir, timeout=1500, xmx="12g", keep_out=False, env=env)
         c.add_tlc("DocGen_bfs", r, "exhaustive: every model of 1 template reachable with %d budgeted elements beyond the first location (first pool entries)" % bfs_budget)
         take(r)
         c.cov["bfs_models"] = len(out)
     for p in profiles:
         cfg = os.path.join(c.run_dir, "DocGen_%s.cfg" % p)
         _cfg(cfg, PROFILES[p], invariants)
-        r = vf.run_tlc(module, cfg, c.run_dir, simulate=max(1, num // 8), depth=60, seed=seed, workers=8, timeout=1500, keep_out=False)
+        r = vf.run_tlc(module, cfg, c.run_dir, simulate=max(1, num // 8), depth=60, seed=seed, workers=8, timeout=1500, keep_out=False, env=env)
         c.add_tlc("DocGen_sim_" + p, r, "random walks of the author state machine, profile " + p)
         take(r)
     return out
